@@ -368,7 +368,7 @@ func createVectorImageFunctions(cdata ImageMap) { //nolint:funlen // this is a g
 			return object.Errorf("unknown image.draw function %q", name)
 		}
 		if oerr != nil {
-			return oerr
+			return *oerr // (a pointer here crashed applyExtension which expects an object.Error value)
 		}
 		img.Vect.ClosePath() // just in case
 		src := image.NewUniform(color)
